@@ -339,7 +339,56 @@ def _w(spec):
     return n
 
 
-CASES = {"d1": case_d1, "d1u": case_d1u, "deep": case_deep}
+def case_d2u(case):
+    """Depth-2 accumulate kernel whose source's upper rank is declared uncompressed:
+    every coordinate of the source's shape is offered (absent ones with an empty
+    stand-in); z gains the source's content, the source tensor - tree AND rank
+    lists - is left exactly as it was."""
+    zspec, aspec = case
+    out = []
+    feats = {"depth:2", "source_upper_rank_uncompressed"} | {"a:" + f for f in tree_features(aspec, 2)}
+    try:
+        Z = Tensor.fromFiber(["M", "N"], mktree(zspec, 2, tag=1), shape=[2, 2])
+        A = Tensor.fromFiber(["M", "N"], mktree(aspec, 2, tag=2), shape=[2, 2])
+        A.setFormat("M", "U")
+        before = (rawtensor(A), rank_index_view(A))
+        zc = content(Z)
+        ac = content(A)
+        offered = []
+        for m, (z_n, a_n) in Z.getRoot() << A.getRoot():
+            offered.append(m)
+            for n, (zr, av) in z_n << a_n:
+                zr += av
+        if offered != [0, 1]:
+            out.append(("populate", "yield-sequence", feats, [0, 1], offered))
+        exp = dict(zc)
+        for p, v in ac.items():
+            exp[p] = exp.get(p, 0) + v
+        if content(Z) != exp:
+            out.append(("populate", "content", feats, exp, content(Z)))
+        after = (rawtensor(A), rank_index_view(A))
+        if after != before:
+            which = "tree" if after[0] != before[0] else "rank-lists"
+            out.append(("populate", "source-modified", feats | {"modified:" + which}, before, after))
+        w = wf(Z.getRoot())
+        m_ = mirror(Z)
+        if w or m_:
+            out.append(("populate", "destination-ill-formed-after-loop", feats, None, [w, m_]))
+        if ac:
+            core.CUR.nt("populate")
+    except Exception as ex:
+        out.append(("populate", "exception:" + type(ex).__name__, feats | {"site:" + core.exc_site(ex)},
+                    None, core.tb_tail(ex)))
+    return out
+
+
+def shard_d2u(acc, shard, nshards, params):
+    u = t2(2, 2)
+    core.drive(acc, "d2u", case_d2u, ((z, a) for a in u for z in u), shard, nshards,
+               family="depth2-U-upper-source[T2(2,2)^2]")
+
+
+CASES = {"d1": case_d1, "d1u": case_d1u, "deep": case_deep, "d2u": case_d2u}
 
 
 def run(ctx):
@@ -356,5 +405,7 @@ def run(ctx):
     ctx.shards(shard_d1, (3, False, 7, LEAF_ACTS))
     ctx.shards(shard_d1, (3, True, 7, "lzp"))
     ctx.shards(shard_d1u, (3, "lpz"))
+    ctx.shards(shard_d2u, None)
+    ctx.bounds["depth2-U-upper-source"] = "z, a in T2(2,2), a's upper rank declared uncompressed, accumulate body; source tensor snapshot incl. rank lists"
     ctx.shards(shard_deep, (2, "lp" if q else "lpz", None, None, time.time() + (60 if q else 600)))
     ctx.shards(shard_deep, (3, "lp", 3 if q else 4, 3 if q else 4, time.time() + (60 if q else 600)))
